@@ -71,6 +71,20 @@ def gen_pair(ctx, nmax):
         d1 = []
     if r.random() < 0.03:
         d2 = []
+    if d1 and r.random() < 0.15:         # same birth multiset and same death multiset, paired differently
+        deaths = [p[1] for p in d1]
+        r.shuffle(deaths)
+        d2 = [[p[0], max(p[0], e)] for p, e in zip(d1, deaths)]
+        if r.random() < 0.5:
+            d2 = [[b, e] for b, e in zip(sorted(p[0] for p in d1), sorted((p[1] for p in d1), reverse=r.random() < 0.5))]
+            d2 = [[b, max(b, e)] for b, e in d2]
+        ctx.count("gen:coordinate_multisets_shared")
+    elif d1 and r.random() < 0.15:       # a reordering / near-copy of the first diagram
+        d2 = [list(p) for p in d1]
+        r.shuffle(d2)
+        if d2 and r.random() < 0.5:
+            i = r.randrange(len(d2)); d2[i] = [d2[i][0], d2[i][1] + r.choice([0.5, 1.0, 0.125])]
+        ctx.count("gen:reordered_copy")
     if d1 and r.random() < 0.3:          # points shared between the two diagrams (zero distances, ties)
         for _ in range(r.randint(1, 3)):
             if len(d2) < nmax:
